@@ -353,6 +353,27 @@ theorem QOk.mono {c : Cache} {n : Nat} (h : QOk c (n + 1)) : QOk c n :=
       have := h.originN
       constructor <;> omega }
 
+theorem QOkL.shrunk {c c' : Cache} {f : Row → Bool} {n : Nat} (hok : QOkL c n) (h : Shrunk c c' f) :
+    QOkL c' n := by
+  have hq := h.queue_sub hok.good
+  refine ⟨h.good, by rw [h.cfg]; exact hok.pol, by rw [h.cfg]; exact hok.page,
+    fun p r hr => hok.qok p r (hq p r hr), fun p r hr => hok.room p r (hq p r hr), ?_,
+    by rw [h.cfg]; exact hok.originN, ?_⟩
+  · unfold OriginOk; rw [h.cfg]; exact hok.origin
+  · intro p r hr
+    have hr' : r ∈ c'.rows := by rw [queueRows_eq] at hr; exact (mem_qrows.1 hr).1
+    rw [entryOfRow_eq, h.ent hok.good r hr']
+    exact hok.readable p r (hq p r hr)
+
+theorem QOkL.mono {c : Cache} {n : Nat} (h : QOkL c (n + 1)) : QOkL c n :=
+  { h with
+    room := fun p r hr k hk => by
+      have := h.room p r hr k hk
+      constructor <;> omega
+    originN := by
+      have := h.originN
+      constructor <;> omega }
+
 /-- the relation survives the removal of rows when the specification's queues are filtered
 alike and no row of an ordinary key is removed -/
 theorem QRefines.shrunk_dict {c c' : Cache} {f : Row → Bool} {q : QSpec.State} {clock now : Int}
